@@ -192,6 +192,11 @@ func resolveMergedAnchors(p *Program) *mergedAnchors {
 		}
 	}
 	if a.producer == nil || a.advance == nil || a.initF == nil || a.next == nil {
+		// the heap itself is still analysable: report what its sift loops do
+		// before giving up on the iterator rules
+		if mergedPartialReport != nil {
+			checkHeapSift(p, mergedPartialReport, a)
+		}
 		fatalf("unresolved anchor: merged iterator methods (producer %v, advance %v, init %v, Next %v)", a.producer != nil, a.advance != nil, a.initF != nil, a.next != nil)
 	}
 	a.newMerged = p.MustFunc("NewMerged")
@@ -216,8 +221,13 @@ func fieldOfParam(fn *ssa.Function, i int, field string, typ types.Type) *Term {
 	return mk("fieldof", field, typ, mk("param", funcKey(fn)+"."+pa.Name(), pa.Type()))
 }
 
+// mergedPartialReport receives the heap rules when the iterator anchors are lost.
+var mergedPartialReport *Report
+
 func checkMergedView(p *Program, r *Report) {
+	mergedPartialReport = r
 	a := resolveMergedAnchors(p)
+	mergedPartialReport = nil
 	keyName := "method:(record).key"
 	// ---- DT-PQ
 	{
@@ -499,6 +509,7 @@ func checkMergedView(p *Program, r *Report) {
 		}
 	}
 	checkIndexStable(p, r, a)
+	checkHeapSift(p, r, a)
 	// ---- SEEK-ALL / SEEK-MERGED in (*Merged).seekRecord
 	{
 		seekName := "method:(Table).seekRecord"
@@ -741,4 +752,256 @@ func init() {
 		r.NotDecided = []string{"heap sift index arithmetic (that the array is a heap)", "correctness of each table's own iterator (C02)"}
 		r.Assumptions = []string{"record.key() and IsDeletion() are pure (effects engine)", "anchors resolved by type structure: entry = struct{interface; int}, heap = struct{[]entry}, iterator = struct with a heap field"}
 	}
+}
+
+// HEAP-SIFT: the sift loops of the merged iterator's priority queue keep the
+// heap order.  The order function is modelled as a strict order on an
+// uninterpreted rank of the entries (justified by DT-PQ, which decides that
+// it is the lexicographic order on key and table index); every loop of a heap
+// method that stores into heap elements is then checked per generic iteration:
+//
+//	sift-down (candidates i, 2i+1, 2i+2): at a swap or at the exit, the element
+//	  moved to / left at position i is not greater than any in-range candidate,
+//	  the swap exchanges positions i and m and the walk continues at m;
+//	sift-up (candidates i, (i-1)/2): the loop stops only when the child is not
+//	  smaller than its parent, otherwise the two are exchanged and the walk
+//	  continues at the parent.
+func checkHeapSift(p *Program, r *Report, a *mergedAnchors) {
+	n := 0
+	for _, f := range p.Funcs {
+		recv := f.Signature.Recv()
+		if recv == nil || f.Parent() != nil {
+			continue
+		}
+		rt := recv.Type()
+		if pt, ok := rt.(*types.Pointer); ok {
+			rt = pt.Elem()
+		}
+		if !types.Identical(rt, a.heapT) {
+			continue
+		}
+		// stores into heap elements inside a loop?
+		hasElemStore := false
+		for _, b := range f.Blocks {
+			for _, ins := range b.Instrs {
+				if st, ok := ins.(*ssa.Store); ok {
+					if ia, ok := st.Addr.(*ssa.IndexAddr); ok {
+						if sl, ok := ia.X.Type().Underlying().(*types.Slice); ok && types.Identical(sl.Elem(), a.entryT) {
+							hasElemStore = true
+						}
+					}
+				}
+			}
+		}
+		if !hasElemStore {
+			continue
+		}
+		fk := funcKey(f)
+		lessKey := funcKey(a.less)
+		type stInfo struct{ addr, val *Term }
+		cfg := &simCfg{
+			Model: func(c *simClient, x *Exec, st *State, fr *Frame, site ssa.CallInstruction, name string, callee *ssa.Function, fnTerm *Term, args []*Term) (bool, []CallOut) {
+				if name == lessKey {
+					return true, []CallOut{{St: st, Val: tLt(mk("rank", "", types.Typ[types.Int], args[0]), mk("rank", "", types.Typ[types.Int], args[1]))}}
+				}
+				if name == "builtin:append" {
+					// the grown heap is an opaque slice: the sift rules speak about
+					// positions, not about which element was appended
+					var typ types.Type
+					if v := site.Value(); v != nil {
+						typ = v.Type()
+					}
+					return true, []CallOut{{St: st, Val: mk("grown", fr.ctx+"/"+siteID(fr, site), typ, args[0])}}
+				}
+				return false, nil
+			},
+			OnStoreHook: func(c *simClient, x *Exec, st *State, fr *Frame, pos token.Pos, addr, val, old *Term) {
+				if addr.Op == "index" {
+					g := c.g(st)
+					g.events = append(g.events, mk("ev", "elemstore", nil, addr, val))
+				}
+			},
+		}
+		c, _ := runSim(p, f, cfg, nil)
+		n++
+		nIter, nExit := 0, 0
+		bad := map[string]string{}
+		var badW []string
+		keyOrder := fk + " / the element kept at a position is a minimum of the candidates"
+		keySwap := fk + " / a sift step exchanges the position with the chosen candidate"
+		two, one := tConst("2", nil), tConst("1", nil)
+		for _, s := range c.Samples {
+			if s.Panic || (s.Kind != "back" && s.Kind != "break") {
+				continue
+			}
+			cm := termByKey(s.Loop)
+			if cm == nil {
+				continue
+			}
+			// rank atoms and index terms of this iteration
+			elems := map[string]*Term{} // index key -> elem term
+			var slice *Term
+			var iVar *Term
+			for _, k := range sortedFactKeys(s.St) {
+				s.St.fterm[k].walk(func(u *Term) {
+					if u.Op == "rank" && u.Args[0].Op == "elem" && u.Args[0].contains(cm) {
+						e := u.Args[0]
+						elems[e.Args[1].key] = e
+						slice = e.Args[0]
+						if e.Args[1].Op == "loopvar" {
+							iVar = e.Args[1]
+						}
+					}
+				})
+			}
+			if iVar == nil || slice == nil {
+				continue
+			}
+			rank := func(idx *Term) *Term {
+				return mk("rank", "", types.Typ[types.Int], mk("elem", "", elems[iVar.key].Typ, slice, idx))
+			}
+			inRange := func(idx *Term) *Formula {
+				return fAtom(tLt(idx, mk("len", "", types.Typ[types.Int], slice)))
+			}
+			l := mk("bin", "+", iVar.Typ, mk("bin", "*", iVar.Typ, two, iVar), one)
+			rr := mk("bin", "+", iVar.Typ, mk("bin", "*", iVar.Typ, two, iVar), two)
+			par := mk("bin", "/", iVar.Typ, mk("bin", "-", iVar.Typ, iVar, one), two)
+			// 2i+1 = i and 2i+2 = i have no solution for a position i >= 0: paths
+			// that took such a branch are infeasible
+			if s.St.truth(tEq(l, iVar)) == 1 || s.St.truth(tEq(rr, iVar)) == 1 {
+				continue
+			}
+			_, hasL := elems[l.key]
+			_, hasR := elems[rr.key]
+			_, hasP := elems[par.key]
+			// the stores of this iteration
+			var stores [][2]*Term
+			for _, e := range s.Events {
+				if e.Op == "ev" && e.Aux == "elemstore" && e.Args[0].contains(cm) {
+					stores = append(stores, [2]*Term{e.Args[0].Args[1], e.Args[1]})
+				}
+			}
+			if os.Getenv("RSA_DEBUG") == "17" {
+				var ks []string
+				for k := range elems {
+					ks = append(ks, k)
+				}
+				sort.Strings(ks)
+				fmt.Fprintf(os.Stderr, "SIFT %s %s i=%s hasL=%v hasR=%v hasP=%v stores=%d elems=%v\n", fk, s.Kind, iVar.key, hasL, hasR, hasP, len(stores), ks)
+				if !hasP && !hasL && !hasR && s.Kind == "break" {
+					for _, k := range sortedFactKeys(s.St) {
+						if strings.Contains(k, "rank") {
+							fmt.Fprintf(os.Stderr, "SIFTFACT %s = %v\n", k, s.St.facts[k])
+						}
+					}
+				}
+			}
+			w := witnessOf(p, s.St.trace)
+			notLess := func(a, b *Term) *Formula { return fNot(fAtom(tLt(rank(a), rank(b)))) }
+			up := hasP && !hasL && !hasR
+			for _, st := range stores {
+				if st[0] == par {
+					up = true
+				}
+			}
+			switch {
+			case up:
+				// sift-up
+				if s.Kind == "break" && len(stores) == 0 {
+					nExit++
+					if ok, cex := implied(s.St, notLess(iVar, par)); !ok {
+						bad[keyOrder] = "the upward walk stops although the element can be smaller than its parent: " + cex
+						badW = w
+					}
+				}
+				if s.Kind == "back" {
+					nIter++
+					if !(len(stores) == 2 && swapOf(stores, slice, iVar, par)) {
+						bad[keySwap] = "an upward step does not exchange the element with its parent"
+						badW = w
+					}
+				}
+			default:
+				// sift-down: chosen position m
+				m := iVar
+				if s.Kind == "back" {
+					nIter++
+					if len(stores) != 2 {
+						bad[keySwap] = fmt.Sprintf("a downward step performs %d element stores instead of an exchange", len(stores))
+						badW = w
+						continue
+					}
+					for _, st := range stores {
+						if st[0] != iVar {
+							m = st[0]
+						}
+					}
+					if !swapOf(stores, slice, iVar, m) || (m != l && m != rr) {
+						bad[keySwap] = "a downward step does not exchange position i with one of its children 2i+1, 2i+2 (exchanged with " + m.String() + ")"
+						badW = w
+						continue
+					}
+				} else {
+					if len(stores) != 0 {
+						continue
+					}
+					nExit++
+				}
+				var conj []*Formula
+				for _, c := range []*Term{iVar, l, rr} {
+					if c == m {
+						continue
+					}
+					if c == iVar {
+						conj = append(conj, notLess(c, m))
+					} else {
+						conj = append(conj, fOr(fNot(inRange(c)), notLess(c, m)))
+					}
+				}
+				// arithmetic truth the order theory does not know: 2i+2 < n implies 2i+1 < n
+				arith := fAnd(inRange(rr), fNot(inRange(l)))
+				if ok, cex := implied(s.St, fOr(arith, fAnd(conj...))); !ok {
+					if os.Getenv("RSA_DEBUG") == "18" {
+						fmt.Fprintf(os.Stderr, "SIFTBAD %s %s stores=%d\n", fk, s.Kind, len(stores))
+						for _, k := range sortedFactKeys(s.St) {
+							fmt.Fprintf(os.Stderr, "   %s = %v\n", k, s.St.facts[k])
+						}
+					}
+					what := "kept at"
+					if s.Kind == "back" {
+						what = "moved up to"
+					}
+					bad[keyOrder] = "the element " + what + " position i can be greater than another candidate among i, 2i+1, 2i+2 that is inside the heap: " + cex
+					badW = w
+				}
+			}
+		}
+		for _, k := range []string{keyOrder, keySwap} {
+			if why, isBad := bad[k]; isBad {
+				r.violate("HEAP-SIFT", k, p.pos(f.Pos()), why+" - the heap order breaks, the merged iterator then yields keys out of order and mistakes a smaller key for a shadowed duplicate", badW)
+			} else {
+				r.ok("HEAP-SIFT", k, fmt.Sprintf("%d sift steps and %d stopping points examined", nIter, nExit))
+			}
+		}
+		r.floor("HEAP-SIFT."+f.Name(), nIter+nExit, 2, "sift steps and stopping points of "+fk)
+	}
+	r.floor("HEAP-SIFT", n, 2, "heap methods with a sift loop")
+}
+
+// swapOf: the two stores exchange the elements at positions a and b.
+func swapOf(stores [][2]*Term, slice, a, b *Term) bool {
+	if len(stores) != 2 {
+		return false
+	}
+	ea, eb := mk("elem", "", nil, slice, a), mk("elem", "", nil, slice, b)
+	ok := 0
+	for _, st := range stores {
+		if st[0] == a && st[1].key == eb.key {
+			ok++
+		}
+		if st[0] == b && st[1].key == ea.key {
+			ok++
+		}
+	}
+	return ok == 2
 }
